@@ -23,7 +23,10 @@ What is proved, and at which level:
   the formula, as an ordered dict (`C10_counts_partial`).  The remaining link of the full
   statement `C10_counts_statement` — that `preprocess` + tokenizer + the three solver steps turn
   the *text* `render f` into that evaluation — is the executable model `substanceOf`; it is
-  validated against the real regexes/solver by correspondence on every run, not proved.
+  validated against the real regexes/solver by correspondence on every run; inside the model it is
+  PROVED for the explicit notation, for parenthesis-free formulas and for sequences of
+  parenthesis-free units and (non-nested) parenthesised groups with counts
+  (`C10_counts_text_…_partial`), not for nested groups in the short notation.
 * species data — for every isotope of every element of the regenerated table and every charge
   number, `get_isotope` returns `N = A − Z`, `e = Z + q`, `mass = M + q·mₑ`; natural = abundance
   weighted mean; most abundant = first maximum.  Generic in the table (any well-formed table),
@@ -68,9 +71,10 @@ theorem C10_solver_partial (valid : Str → Bool) (f : F) (hwf : f.wf = true)
 
 /-- The remaining link of the text-level statement.  PROVED for parenthesis-free formulas
     (`C10_preprocess_partial`, including the order-independence of the pass-1 fixed point over
-    merged capital runs), for one parenthesised parenthesis-free group with an optional count
-    (`C10_preprocess_group_partial`) and for explicit text (`preprocess_explicit`).  NOT proved:
-    formulas with items next to a group or nested groups in the short notation — the rewriting of `X (`, `)n X`, `)n (` by passes
+    merged capital runs), for sequences of parenthesis-free units and parenthesised
+    parenthesis-free groups with optional counts (`C10_preprocess_units_partial`; special cases
+    `C10_preprocess_group_partial`, `C10_preprocess_chain_group_partial`) and for explicit text
+    (`preprocess_explicit`).  NOT proved: NESTED groups in the short notation — there the rewriting of `X (`, `)n X`, `)n (` by passes
     3 and 4 (their look-behind run `[^*+(\s]*` / look-ahead `[^+*)\s]*` crosses item boundaries)
     and the interplay of passes 1 and 2 with text inside and next to groups — and a trailing
     explicit ` * n` mixed into the short notation.  Evaluated by the driver on every generated
